@@ -18,16 +18,16 @@ namespace PsModel.C13
 open PsModel
 
 structure Drv where
-  m : St Str := init
-  sp : Sp Str := Sp.init
+  m : St Key := init
+  sp : Sp Key := Sp.init
   out : List String := []
   spout : List String := []
   tasks : List Nat := []      -- started tasks, most recent first
-  keys : List Str := []
+  keys : List Key := []
 
 def Drv.emit (d : Drv) (m sp : String) : Drv := { d with out := m :: d.out, spout := sp :: d.spout }
 
-def Drv.key (d : Drv) (k : Str) : Drv := if k ∈ d.keys then d else { d with keys := k :: d.keys }
+def Drv.key (d : Drv) (k : Key) : Drv := if k ∈ d.keys then d else { d with keys := k :: d.keys }
 
 def showStr (s : Str) : String := String.ofList s
 
@@ -38,31 +38,35 @@ def showPairs (xs : List (String × Nat)) : String :=
   "{" ++ ",".intercalate ((sortPairs xs).map fun p => s!"{p.1}:{p.2}") ++ "}"
 
 /-- `task.name2id()` of context `c`, over the keys seen so far -/
-def viewOf (owner : Str → Option Task) (keys : List Str) (c : Str) : String :=
+def showView (owner : Key → Option Task) (keys : List Key) (c : Str) : String :=
   showPairs (keys.filterMap fun k =>
-    match viewName c k, owner k with
+    match viewOf current.tupleKeys c k, owner k with
     | some n, some t => some (showStr n, t)
     | _, _ => none)
+
+/-- a key of `unique_task2name` as the harness prints it: `ctx/name` for tuple keys, the string itself before -/
+def showKey (k : Key) : String :=
+  if current.tupleKeys then showStr k.1 ++ "/" ++ showStr k.2 else showStr k.1
 
 def showNats (xs : List Nat) : String := "(" ++ " ".intercalate (xs.map toString) ++ ")"
 
 def snapModel (d : Drv) (ctxs : List Str) : String :=
   let ts := d.tasks.reverse
-  let views := " ".intercalate (ctxs.map fun c => showStr c ++ "=" ++ viewOf d.m.owner d.keys c)
+  let views := " ".intercalate (ctxs.map fun c => showStr c ++ "=" ++ showView d.m.owner d.keys c)
   let status := "".intercalate (ts.map fun t =>
     if d.m.live t then "r" else if d.m.cancelReq t then "c" else "d")
   let ours := showNats (ts.filter fun t => d.m.ours t)
   let t2n := " ".intercalate ((ts.filter fun t => d.m.entry t).map fun t =>
-    s!"{t}=" ++ "{" ++ ",".intercalate (((d.m.names t).map showStr).mergeSort (fun a b => decide (a ≤ b))) ++ "}")
+    s!"{t}=" ++ "{" ++ ",".intercalate (((d.m.names t).map showKey).mergeSort (fun a b => decide (a ≤ b))) ++ "}")
   s!"[{views} | {status} | q={showNats d.m.reaperQ} | ours={ours} | t2n={t2n}]"
 
 def snapSpec (d : Drv) (ctxs : List Str) : String :=
   let ts := d.tasks.reverse
-  let views := " ".intercalate (ctxs.map fun c => showStr c ++ "=" ++ viewOf d.sp.owner d.keys c)
+  let views := " ".intercalate (ctxs.map fun c => showStr c ++ "=" ++ showView d.sp.owner d.keys c)
   let status := "".intercalate (ts.map fun t => if d.sp.alive t then "r" else "-")
   s!"[{views} | {status}]"
 
-def both (d : Drv) (op : Op Str) : Drv := { d with m := step d.m op, sp := d.sp.step op }
+def both (d : Drv) (op : Op Key) : Drv := { d with m := step d.m op, sp := d.sp.step op }
 
 def stepOp (d : Drv) (x : Sexp) : Option Drv :=
   match x with
@@ -74,7 +78,7 @@ def stepOp (d : Drv) (x : Sexp) : Option Drv :=
   | .list [.atom "u", t, .atom c, .atom n, km] => do
     let t ← t.nat?
     let km ← km.bool?
-    let k := mkKey c.toList n.toList
+    let k := keyOf current.tupleKeys c.toList n.toList
     let d := d.key k
     let tok := if !canStep d.m t then "u:bad"
                else match d.m.owner k with
@@ -95,13 +99,13 @@ def stepOp (d : Drv) (x : Sexp) : Option Drv :=
   | .list [.atom "dn", t, .atom c, .atom n, km] => do
     let t ← t.nat?
     let km ← km.bool?
-    let k := mkKey c.toList n.toList
+    let k := keyOf current.tupleKeys c.toList n.toList
     let d := d.key k
     let tok := if decoRuns d.m k km then "d:run" else "d:skip"
     let stok := if km && (d.sp.owner k).isSome then "d:skip" else "d:run"
     pure ((both d (.decoNew t k km)).emit tok stok)
   | .list [.atom "ck", .atom c, .atom n] =>
-    let k := mkKey c.toList n.toList
+    let k := keyOf current.tupleKeys c.toList n.toList
     let d := d.key k
     pure (d.emit (if nameUsed d.m k then "c:used" else "c:free")
                  (if (d.sp.owner k).isSome then "c:used" else "c:free"))
